@@ -4,6 +4,8 @@ CONSTANTS
   Interleave = FALSE
   SeqParams <- SeqPlain
   Modes = {"Sign"}
+  Splits = {"any"}
+  PreInjects = {"none"}
   Moves = {"replay", "hold", "drop"}
   Damages = {}
   Injects = {}
